@@ -5,7 +5,7 @@ from common import *
 ID = "C37"
 GEN = []
 THEOREMS = ["C37_namespace", "C37_refuted_namespace", "C37_forward_filter", "C37_show_hide",
-            "C37_with_default_only", "C37_refuted_with", "C37_config_twice", "C37_builtin_guard"]
+            "C37_forwarded_builtin", "C37_forwarded_builtin_plain_guard", "C37_refuted_forwarded_builtin", "C37_with_default_only", "C37_refuted_with", "C37_config_twice", "C37_builtin_guard"]
 COQ_HEADER = ("From Coq Require Import String List ZArith.\nFrom RV Require Import Model.EvModule Run.C37.\n"
               "Import ListNotations.\nLocal Open Scope string_scope.")
 RUN_EXPR = "Run.C37.run"
@@ -13,7 +13,8 @@ RULE = ("module graphs of 2-3 in-memory files: @use URLs (directories, partial u
         "reference namespace; @forward with every combination of prefix x show/hide lists over variables/functions/mixins (incl. "
         "cross-kind and unknown names), members observed with meta.module-variables/-functions/mixin-exists; @use with(...) over "
         "modules with 1..4 declarations (default / non-default) and configurations of known, non-default, unknown and repeated "
-        "names; built-in guards; distinct = distinct file set; non-trivial = always")
+        "names; built-in guards, also through a user module that forwards sass:math (plain / prefixed / show / hide) with assignment to or "
+        "configuration of the forwarded variable and of the module's own variable; distinct = distinct file set; non-trivial = always")
 EXHAUSTIVE = {"quick": False, "thorough": False}
 TRUSTED = ["Spec/SassModule.v: reference rules written from the property text",
            "python: printing of the module graphs, parsing of inspect() maps/lists of the probes"]
@@ -69,6 +70,26 @@ def gen_fwd(rng):
     return {"k": "fwd", "pfx": pfx, "e": e}
 
 
+FB_ACTS = ["assign-builtin", "assign-own", "config-builtin", "read-builtin", "config-own"]
+
+
+def gen_fwdb(rng):
+    """a user module forwarding sass:math (plain / prefixed / show / hide); the root assigns to or configures
+    the forwarded built-in variable (or the module's own variable) through the user module's namespace"""
+    pfx = rng.choice([None, None, "m-"])
+    p = pfx or ""
+    r = rng.random()
+    if r < 0.35:
+        e = ["all"]
+    else:
+        fl = [p + x for x in rng.sample(["floor", "ceil", "zz"], rng.randrange(0, 3))]
+        vl = [p + x for x in rng.sample(["pi", "e", "zz"], rng.randrange(0, 3))]
+        if not fl and not vl:
+            vl = [p + "pi"]
+        e = [rng.choice(["show", "hide"]), fl, vl]
+    return {"k": "fwdb", "act": rng.choice(FB_ACTS), "pfx": pfx, "e": e}
+
+
 def gen_cfg(rng):
     decls = [[rng.choice(["v", "w", "u"]), rng.randrange(1, 5), rng.random() < 0.6] for _ in range(rng.randrange(1, 5))]
     names = rng.sample(["v", "w", "u", "zz"], rng.randrange(0, 4))
@@ -95,6 +116,14 @@ def gen_cases(ctx, tier):
         cases.append({"k": "cfg", "decls": decls, "cfg": cfg})
     for k in (0, 1, 2):
         cases.append({"k": "builtin", "n": k})
+    for act in FB_ACTS:
+        for pfx in (None, "m-"):
+            p = pfx or ""
+            for e in (["all"], ["show", [p + "floor"], [p + "pi"]], ["show", [p + "floor"], []], ["hide", [], [p + "pi"]],
+                      ["hide", [p + "floor"], [p + "e"]]):
+                cases.append({"k": "fwdb", "act": act, "pfx": pfx, "e": e})
+    for _ in range(120 * (1 if tier == "quick" else 10)):
+        cases.append(gen_fwdb(rng))
     mult = 1 if tier == "quick" else 10
     for _ in range(150 * mult):
         cases.append(gen_ns(rng))
@@ -131,6 +160,22 @@ def files_of(c):
         main = ('@use "sass:meta"; @use "sass:map"; @use "mid"; a { k: inspect(meta.module-variables("mid")); '
                 'f: inspect(map.keys(meta.module-functions("mid"))); %s }' % probes)
         return {"main.scss": main, "mid.scss": fw + ";", "lib.scss": LIB}
+    if k == "fwdb":
+        fw = '@forward "sass:math"'
+        if c["pfx"]:
+            fw += " as %s*" % c["pfx"]
+        e = c["e"]
+        if e[0] != "all":
+            fw += " %s %s" % (e[0], ", ".join(e[1] + ["$" + v for v in e[2]]))
+        numbers = fw + "; $own: 1 !default;"
+        pi = (c["pfx"] or "") + "pi"
+        act = c["act"]
+        main = {"assign-builtin": '@use "numbers"; numbers.$%s: 3; a { x: numbers.$%s }' % (pi, pi),
+                "assign-own": '@use "numbers"; numbers.$own: 3; a { x: numbers.$own }',
+                "config-builtin": '@use "numbers" with ($%s: 3); a { x: numbers.$%s }' % (pi, pi),
+                "read-builtin": '@use "numbers"; a { x: numbers.$%s }' % pi,
+                "config-own": '@use "numbers" with ($own: 3); a { x: numbers.$own }'}[act]
+        return {"main.scss": main, "numbers.scss": numbers}
     if k == "cfg":
         lib = " ".join("$%s: %d%s;" % (n, v, " !default" if d else "") for n, v, d in c["decls"])
         w = (" with (%s)" % ", ".join("$%s: %d" % (n, v) for n, v in c["cfg"])) if c["cfg"] else ""
@@ -203,6 +248,9 @@ def impl_term(c, io):
                                         clist([cstring(x) for x in mx]))
         if k == "cfg":
             return "(IVars %s)" % kv(parse_map(d["k"]))
+        if k == "fwdb":
+            v = d["x"]
+            return "(IVal %s)" % cz(0 if v.startswith("3.14159") else int(v))
         return "IOk"
     except Exception:
         return "IOther"
@@ -221,6 +269,10 @@ def input_term(c):
         return "(CNs %s)" % cstring(c["url"])
     if k == "fwd":
         return "(CFwd %s %s)" % (copt(cstring(c["pfx"]) if c["pfx"] else None), e_coq(c["e"]))
+    if k == "fwdb":
+        act = {"assign-builtin": "FAssignBuiltin", "assign-own": "FAssignOwn", "config-builtin": "FConfigBuiltin",
+               "read-builtin": "FReadBuiltin", "config-own": "FConfigOwn"}[c["act"]]
+        return "(CFwdB %s %s %s)" % (act, copt(cstring(c["pfx"]) if c["pfx"] else None), e_coq(c["e"]))
     if k == "cfg":
         ds = clist(["(%s, %s, %s)" % (cstring(n), cz(v), cbool(d)) for n, v, d in c["decls"]])
         return "(CCfg %s %s)" % (ds, kv(c["cfg"]))
@@ -231,8 +283,9 @@ def coq_term(c, io):
     return f"(mkCase {input_term(c)} {impl_term(c, io)})"
 
 
-KCLASS = {0: None, 1: "known_C37_K1_namespace_raw_segment", 2: "known_C37_K2_with_not_default"}
-KIND = {1: "namespace", 2: "forward-filter", 3: "with-config", 4: "builtin-guard"}
+KCLASS = {0: None, 1: "known_C37_K1_namespace_raw_segment", 2: "known_C37_K2_with_not_default",
+          4: "known_C37_K4_forwarded_builtin_guard"}
+KIND = {1: "namespace", 2: "forward-filter", 3: "with-config", 4: "builtin-guard", 5: "forwarded-builtin"}
 
 
 def show(c):
